@@ -18,10 +18,12 @@ import re
 
 # three sessions with different negotiated parameters (refwire.strategies session descriptions)
 SESSIONS = [
-    {'name': 'A', 'asn4': True, 'families': [[1, 1], [2, 1]], 'addpath': [], 'peer_as': 65001},
-    {'name': 'B', 'asn4': False, 'families': [[1, 1], [1, 4]], 'addpath': [[1, 1]], 'peer_as': 65002},
-    {'name': 'C', 'asn4': True, 'families': [[1, 1], [2, 1], [1, 128]], 'addpath': [[2, 1]], 'peer_as': 70000},
+# (aigp is not negotiated on the wire: it is the neighbor's `capability aigp` setting, and the AIGP decoder reads it)
+    {'name': 'A', 'asn4': True, 'aigp': True, 'families': [[1, 1], [2, 1]], 'addpath': [], 'peer_as': 65001},
+    {'name': 'B', 'asn4': False, 'aigp': True, 'families': [[1, 1], [1, 4]], 'addpath': [[1, 1]], 'peer_as': 65002},
+    {'name': 'C', 'asn4': True, 'aigp': False, 'families': [[1, 1], [2, 1], [1, 128]], 'addpath': [[2, 1]], 'peer_as': 70000},
 ]
+PARAMETERS = ('asn4', 'aigp', 'families', 'addpath')
 FAMILY_TEXT = {(1, 1): 'ipv4 unicast', (1, 2): 'ipv4 multicast', (1, 4): 'ipv4 nlri-mpls', (1, 128): 'ipv4 mpls-vpn', (2, 1): 'ipv6 unicast', (2, 4): 'ipv6 nlri-mpls', (2, 128): 'ipv6 mpls-vpn'}
 
 OPEN, UPDATE, NOTIFICATION, KEEPALIVE, ROUTE_REFRESH = 1, 2, 3, 4, 5
@@ -48,6 +50,7 @@ def setup() -> dict:
     from vlib import exa
     from vlib.refwire import strategies as ws
 
+    from exabgp.protocol.family import AFI, SAFI
     from exabgp.reactor.api.response import Response
     from exabgp.reactor.peer.context import PeerContext
     from exabgp.reactor.peer.handlers import UpdateHandler
@@ -65,14 +68,16 @@ def setup() -> dict:
             local_as=65000,
             peer_as=s['peer_as'],
             families=fams,
-            capability={'asn4': 'enable', 'add-path': 'send/receive' if ap else 'disable', 'aigp': 'enable'},
+            capability={'asn4': 'enable', 'add-path': 'send/receive' if ap else 'disable', 'aigp': 'enable' if s['aigp'] else 'disable'},
             addpath_families=ap or None,
             extra='  adj-rib-in true;',
         )
         _conf, neighbor = exa.neighbor_from_text(text)
         desc = {k: s[k] for k in ('asn4', 'families', 'addpath', 'peer_as')}
         neg = exa.negotiate(neighbor, ws.peer_open_for(desc), exa.Direction.IN)
-        assert bool(neg.asn4) == s['asn4'], (s, neg.asn4)
+        assert bool(neg.asn4) == s['asn4'] and bool(neg.aigp) == s['aigp'], (s, neg.asn4, neg.aigp)
+        for fam in s['families']:
+            assert bool(neg.required(AFI.from_int(fam[0]), SAFI.from_int(fam[1]))) == (fam in s['addpath']), (s, fam)
         ctx = PeerContext(proto=None, neighbor=neighbor, negotiated=neg, refresh_enhanced=False, routes_per_iteration=25, peer_id=f'c19-{s["name"]}', stats=collections.defaultdict(int))
         sessions.append({'neighbor': neighbor, 'negotiated': neg, 'ctx': ctx, 'handler': UpdateHandler()})
     _T['sessions'] = sessions
